@@ -316,6 +316,14 @@ def gen_spike(tier, rng):
         cases.append({"xs": frs(xs), "method": rng.choice(["average", "differential"]),
                       "st": rng.choice([core.fr(t) for t in thr] + [core.fr(F(1, 2))]),
                       "ft": rng.choice([core.fr(t) for t in thr] + [core.fr(F(3))])})
+    # raw counts: whole numbers up to 200 / 30000 without gaps (so that narrow signed and unsigned integer carriers hold
+    # them) - sums and differences of neighbours exceed what the carrier's own type can hold
+    for _ in range(120 if tier == "quick" else 1200):
+        big = rng.choice([200, 100, 30000, 120])
+        n = rng.randint(3, 8)
+        xs = [F(rng.choice([10, big, 0, big - 10, 40, 100])) for _ in range(n)]
+        cases.append({"xs": frs(xs), "method": rng.choice(["average", "differential"]),
+                      "st": core.fr(F(rng.choice([25, 50, 1]))), "ft": core.fr(F(rng.choice([50, 100, 25000])))})
     # hairline spikes: the spike measure exceeds (or misses) a threshold by 2^-30 / 2^-20 - a comparison is exact,
     # with no tolerance band around the threshold (absolute or relative)
     for _ in range(200 if tier == "quick" else 2000):
